@@ -119,3 +119,9 @@ package message
 //@   prop C12
 //@   ensures typecode: result == typecode(RegisterRMResponse)
 //@   nopanic
+
+// C14: a future's Done channel can take the completion signal without a waiting receiver.
+//@ func NewMessageFuture
+//@   prop C14
+//@   ensures fresh: result != nil && result.ID == message.ID && result.Response == nil && result.Err == nil
+//@   ensures buffered: chancap(result.Done) >= 1 && chanlen(result.Done) == 0
